@@ -1,0 +1,11 @@
+//go:build !verif
+
+package goatlang
+
+// Verification hooks (see verif_on.go). With the verif build tag off these are
+// empty and inlined away, so shipped behaviour is unchanged.
+
+func verifTick(v *VM)                 {}
+func verifOrderStrings(keys []string) {}
+func verifOrderFloats(keys []float64) {}
+func verifNoOptimize() bool           { return false }
